@@ -127,16 +127,26 @@ def work(P, item):
         ngood = int(K.nb_fft_good_size(n, True))
         x = sym_vec("x", n)
 
-        class KS:
+        class KSc:
             nb_fft_good_size = staticmethod(lambda k, real=False: int(K.nb_fft_good_size(k, real)))
 
             @staticmethod
             def nb_rfft(a, nn=None):
-                return rfft_hook(Interp.__new__(Interp), [a, nn], {}, None) if False else _rfft(a, nn)
+                return _rfft(a, nn)
 
             @staticmethod
             def nb_irfft(s, nn=None):
                 return _irfft(s, nn)
+
+            def __getattr__(self, name):
+                # any other kernel the Python layer calls is executed from its own typed IR (FFT calls through the contract)
+                disp = getattr(K, name)
+
+                def call(*a):
+                    tys = tuple(f4a if isinstance(v, NArr) and v.dtype == types.float32 else (c8a if isinstance(v, NArr) else types.int64) for v in a)
+                    return Interp(capture(disp, tys), "int", hooks=hooks()).run(list(a))
+                return call
+        KS = KSc()
 
         class H:
             def __init__(self, ns):
